@@ -88,6 +88,12 @@ func (ln *listener) Accept() (net.Conn, error) {
 
 // Close implements Listener.
 func (ln *listener) Close() error {
+	if ln.file != nil {
+		// ln.fd is the descriptor of ln.file, which closes it below. Closing the
+		// number here as well closes it twice: the second close hits whatever
+		// descriptor another goroutine has been given in between.
+		ln.fd = 0
+	}
 	if ln.fd != 0 {
 		syscall.Close(ln.fd)
 	}
